@@ -33,6 +33,7 @@ type Contract struct {
 	Clauses  []*Clause
 	Serves   []string // properties whose cone contains this contract as a whole
 	Nullable []string // pointer parameters that may be nil (query requests)
+	Without  []string // prelude functions kept uninterpreted (their axioms are not needed by this function's proof)
 	Trusted  bool     // "trusted": contract is assumed, body not verified (listed in evidence)
 	Layer    string
 	File     string
@@ -61,7 +62,7 @@ type Lemma struct {
 
 var propRe = regexp.MustCompile(`C[0-9]{2}`)
 var headRe = regexp.MustCompile(`^func\s+(?:\(\s*\*?\s*([A-Za-z_][A-Za-z0-9_]*)\s*\)\s*)?([A-Za-z_][A-Za-z0-9_$]*)\s*\(([^)]*)\)\s*(?:\(([^)]*)\))?\s*$`)
-var clauseRe = regexp.MustCompile(`^(requires|ensures|modifies|emits|calls|invariant|assigns|trusted|layer|loop|serves|defines|nullable|assert@[A-Za-z0-9_.]+)\s*(?:\[([^\]]*)\])?\s*(.*)$`)
+var clauseRe = regexp.MustCompile(`^(requires|ensures|modifies|emits|calls|invariant|assigns|trusted|layer|loop|serves|defines|nullable|without|assert@[A-Za-z0-9_.]+)\s*(?:\[([^\]]*)\])?\s*(.*)$`)
 
 type ContractFile struct {
 	Contracts []*Contract
@@ -240,6 +241,9 @@ func ParseContractFile(path string) (*ContractFile, error) {
 		case "serves":
 			cur.Serves = append(cur.Serves, propRe.FindAllString(rest, -1)...)
 			continue
+		case "without":
+			cur.Without = append(cur.Without, splitNames(strings.ReplaceAll(rest, " ", ","))...)
+			continue
 		case "nullable":
 			cur.Nullable = append(cur.Nullable, splitNames(rest)...)
 			continue
@@ -309,6 +313,8 @@ type macroDef struct {
 	body   string
 }
 
+var identRe = regexp.MustCompile(`^[A-Za-z_][A-Za-z0-9_]*$`)
+
 var macroRe = regexp.MustCompile(`^macro\s+([A-Za-z_][A-Za-z0-9_]*)\s*\(([^)]*)\)\s*:=\s*(.*)$`)
 
 func expandMacros(t string, macros map[string]macroDef, depth int) (string, error) {
@@ -351,7 +357,11 @@ func expandMacros(t string, macros map[string]macroDef, depth int) (string, erro
 				body = re.ReplaceAllLiteralString(body, "\x00"+fmt.Sprint(i)+"\x00")
 			}
 			for i, a := range args {
-				body = strings.ReplaceAll(body, "\x00"+fmt.Sprint(i)+"\x00", "("+a+")")
+				rep := "(" + a + ")"
+				if identRe.MatchString(a) {
+					rep = a // a bare name may be used in call position inside the macro
+				}
+				body = strings.ReplaceAll(body, "\x00"+fmt.Sprint(i)+"\x00", rep)
 			}
 			exp, err := expandMacros(body, macros, depth+1)
 			if err != nil {
